@@ -66,10 +66,13 @@ def int_cases(rng, n):
             c["ddof"] = 0
             # keep every group well-conditioned (spread comparable to the magnitude): the property is about
             # well-conditioned data; sums of squares of nearly equal huge values cancel catastrophically
+            mixed = (not dtype.startswith("u")) and rng.random() < 0.5
             for g in set(c["labels"]):
                 idx = [i for i, l in enumerate(c["labels"]) if l == g]
                 if len(idx) >= 2:
-                    c["vals"][idx[0]], c["vals"][idx[1]] = 1, hi
+                    # (mixed sign: the FIRST member near the negative end, another near the positive end - differences between members
+                    #  exceed the input width although every member fits it)
+                    c["vals"][idx[0]], c["vals"][idx[1]] = (-(hi - rng.randint(0, hi // 4)) if mixed else 1), hi - (rng.randint(0, hi // 8) if mixed else 0)
                 else:
                     c["vals"][idx[0]] = 1
         plan = rng.choice(["eager", "eager", "map-reduce", "cohorts"])
